@@ -213,7 +213,10 @@ func advTxContents() [][]byte {
 		add(tx(`{"address":"`+A+`","amount":`+amt+`,"type":"pUSD"}`, `"conversion":"pEUR"`))
 		add(tx(`{"address":"`+A+`","amount":`+amt+`,"type":"PEG"}`, `"conversion":"pUSD"`))
 	}
-	for _, ty := range []string{`"pUSD"`, `"PEG"`, `"pXXX"`, `""`, `"p"`, `"USD"`, `1`, `null`, `"pusd"`, `"pUSD "`, `"pUSD"`} {
+	// (strings at their edges: a lone escaped quote, escaped quotes around a ticker, a lone backslash escape, escapes spelling
+	// a ticker, a control character, one and two bytes: whatever the hand-written ticker parser indexes or slices)
+	for _, ty := range []string{`"pUSD"`, `"PEG"`, `"pXXX"`, `""`, `"p"`, `"USD"`, `1`, `null`, `"pusd"`, `"pUSD "`, `"pUSD"`,
+		`"\""`, `"\"\""`, `"\"pUSD\""`, `"\\"`, `"pU\u0053D"`, `"\u0000"`, `"x"`, `"xy"`, `"\"p"`, `"p\""`} {
 		add(tx(`{"address":"`+A+`","amount":5,"type":`+ty+`}`, `"transfers":[{"address":"`+B+`","amount":5}]`))
 		add(tx(`{"address":"`+A+`","amount":5,"type":"pUSD"}`, `"conversion":`+ty))
 	}
